@@ -8,6 +8,8 @@ from vf.common import Check
 from vf.eqsmt import to_z3, Untranslatable, Decider, val_fraction
 from vf.par import pmap
 import sfc_models.utils as U
+from sfc_models.equation import Equation
+from sfc_models.utils import LogicError
 
 NAMES = ['x', 'xx', 'x1', '_x', 'x_', 'e', 'j', 'k']
 # names whose spelling a numeric constructor (float(), complex()) would accept: they are names to the tokenizer and to eval()
@@ -16,7 +18,9 @@ LITS = ['1e5', '0x1F', '2j', '.5', '1_000', '1e+5', '"x"', "'xx e'", '3', '2.5e-
 MAPS = [
     {'x': 'y'}, {'x': 'xx'}, {'xx': 'x'}, {'x': 'xx', 'xx': 'x'}, {'x': 'x1', 'x1': 'x_'}, {'e': 'E'}, {'j': 'J'}, {'k': 'kk'},
     {'x': 'e'}, {'_x': 'x_', 'x_': '_x'}, {'x': 'y', 'xx': 'yy', 'x1': 'y1'}, {'x': 'j', 'j': 'x'}, {'x': 'x'}, {'e': 'j', 'j': 'k', 'k': 'e'},
-    {'x_': 'HH__x', 'x': 'HH__x_'}, {'INF': 'CB__INF', 'x': 'y'}, {'nan': 'HH__nan', 'Infinity': 'HH__Infinity', 'inf': 'nan_', 'NaN': 'inf'}
+    {'x_': 'HH__x', 'x': 'HH__x_'}, {'INF': 'CB__INF', 'x': 'y'},
+    # keys spelled like the tail of a numeric literal (exponent, hex digits, digit group, imaginary unit): legal names that must not be found inside numbers
+    {'e5': 'HH__e5', 'x1F': 'HH__x1F', '_000': 'HH__k', 'j': 'HH__j', 'e': 'HH__e', 'E': 'F', 'x': 'HH__x'}, {'nan': 'HH__nan', 'Infinity': 'HH__Infinity', 'inf': 'nan_', 'NaN': 'inf'}
 ]
 
 
@@ -110,6 +114,31 @@ def chunk_work(chunk):
                 pass
             valid_targets = all(t.isidentifier() for t in mp.values())
             outs = []
+            # the object-level route: the expression held as Equation terms (normalised by the term parser), renamed by Equation.ReplaceTokensFromLookup
+            try:
+                eq = Equation('lhs', '', e)
+                before = eq.RHS()
+                eq.ReplaceTokensFromLookup(mp)
+                eout = eq.RHS()
+            except (LogicError, SyntaxError, NotImplementedError, ValueError):
+                eout = None
+            if eout is not None and all(t.isidentifier() for t in mp.values()):
+                res['tok'] += 1
+                try:
+                    bn, on = src_names(before), src_names(eout)
+                    if on != [mp.get(n_, n_) for n_ in bn]:
+                        res['bad'].append(('Equation.ReplaceTokensFromLookup', e, mp, eout, 'names of output %r, held expression %r has %r' % (on, before, bn)))
+                    elif not merges(before, mp):
+                        r, m = semantic_equal(before, eout, mp, D)
+                        res['sem'] += 1
+                        if r == 'sat':
+                            res['bad'].append(('Equation.ReplaceTokensFromLookup', e, mp, eout, 'value differs under the renamed environment'))
+                        elif r != 'unsat':
+                            res['unknown'].append(('Equation.ReplaceTokensFromLookup', e, mp))
+                except SyntaxError:
+                    res['bad'].append(('Equation.ReplaceTokensFromLookup', e, mp, eout, 'output does not parse'))
+                except Untranslatable:
+                    res['untranslatable'] += 1
             outs.append(('replace_token_from_lookup', U.replace_token_from_lookup(e, mp)))
             if len(mp) == 1:
                 (k, v), = mp.items()
@@ -149,12 +178,18 @@ def chunk_work(chunk):
 REPLAY = '''
 import sys, ast
 import sfc_models.utils as U
+from sfc_models.equation import Equation
+from sfc_models.utils import LogicError
 fn, e, mp = %(fn)r, %(e)r, %(mp)r
 if fn == 'list_tokens':
     from vf.props.c13 import src_names
     got = U.list_tokens(e); want = src_names(e)
     print('list_tokens(%%r) = %%r, name tokens in order of appearance: %%r' %% (e, got, want)); sys.exit(1 if got != want else 0)
-out = U.replace_token_from_lookup(e, mp) if fn == 'replace_token_from_lookup' else U.replace_token(e, *list(mp.items())[0])
+if fn == 'Equation.ReplaceTokensFromLookup':
+    from sfc_models.equation import Equation
+    eq = Equation('lhs', '', e); e = eq.RHS(); eq.ReplaceTokensFromLookup(mp); out = eq.RHS()
+else:
+    out = U.replace_token_from_lookup(e, mp) if fn == 'replace_token_from_lookup' else U.replace_token(e, *list(mp.items())[0])
 print('%%s(%%r, %%r) -> %%r' %% (fn, e, mp, out))
 from vf.props.c13 import src_names
 try:
@@ -177,7 +212,8 @@ sys.exit(1 if a != b else 0)
 
 def run(tier, seed):
     chk = Check('C13', tier, 'translation_validation', seed)
-    chk.encode(U.list_tokens, U.replace_token, U.replace_token_from_lookup)
+    import sfc_models.equation
+    chk.encode(U.list_tokens, U.replace_token, U.replace_token_from_lookup, sfc_models.equation.Term.ReplaceTokensFromLookup, sfc_models.equation.Equation.ReplaceTokensFromLookup)
     ex = expressions(tier)
     chk.bounds = {'expressions': len(ex), 'renaming maps': len(MAPS), 'names': NAMES + NUMLIKE, 'literals': LITS,
                   'grammar': 'binary/ternary arithmetic, power, comparisons, calls (1-2 args), lag notation x(k-1) and tokenizer-spaced, '
